@@ -77,6 +77,8 @@ def gen_case(rng):
         # explicit enable_auto_repair_*() calls on the mediator after the transcoders were registered
         case['explicit_repair'] = rng.choice([{'normalize': ['flag']}, {'normalize': ['when']}, {'drop': ['when']}, {'normalize': ['n'], 'drop': []},
                                               {'normalize': []}, {'drop': ['n']}, {'normalize': ['flag'], 'drop': ['when']}])
+    if rng.random() < 0.12:
+        case['late_bad_source'] = True
     if not case['ignore_invalid'] and rng.random() < 0.4:
         # ignore_invalid_events() is called in mid session, just before the op with this index
         case['ignore_at'] = rng.randint(1, max(1, len(ops) - 1))
@@ -202,6 +204,21 @@ def run_case(case):
             calls.append('edxml:' + type(ex).__name__)
         except Exception as ex:
             calls.append('raised:' + type(ex).__name__)
+    late = None
+    if case.get('late_bad_source'):
+        # a source with an invalid definition is added after the last record: close() refuses; the definition is repaired
+        # through the object that add_event_source() returned, and close() is called again
+        src = m.add_event_source('/src/late/')
+        src.set_description('x' * 200)
+        try:
+            r = m.close()
+            chunks.append(r if isinstance(r, bytes) else b'')
+            late = 'first close() accepted an invalid source definition'
+        except EDXMLError:
+            late = 'refused'
+        except Exception as ex:
+            late = 'raised:' + type(ex).__name__
+        src.set_description('repaired')
     try:
         r = m.close()
         chunks.append(r if isinstance(r, bytes) else b'')
@@ -222,8 +239,11 @@ def run_case(case):
     except Exception as ex:
         err = 'foreign:' + type(ex).__name__
     o = p.get_ontology()
-    return {'calls': calls, 'closed': closed, 'parse': err, 'events': events, 'n_bytes': len(data),
-            'sources': sorted(o.get_event_sources().keys()) if o is not None else None}
+    res = {'calls': calls, 'closed': closed, 'parse': err, 'events': events, 'n_bytes': len(data),
+           'sources': sorted(o.get_event_sources().keys()) if o is not None else None}
+    if case.get('late_bad_source'):
+        res['late'] = late
+    return res
 
 
 # ---- ObjectTranscoder.generate: which object values a record gives under a property map --------------------
@@ -509,6 +529,8 @@ def classify(case, rec):
     props = {k: sorted({as_str(v) for v in vs}) for k, vs in raw.items() if vs}
     ok = True
     bad_props = []
+    bad_values = {}
+    structural = []
     for k, vs in props.items():
         dt = OBJECT_TYPES[cfg['props'][k]]
         for v in vs:
@@ -516,14 +538,38 @@ def classify(case, rec):
             if sv is not True:
                 ok = False
                 bad_props.append(k)
+                bad_values.setdefault(k, []).append(v)
         if k not in cfg['multi'] and len(vs) > 1:
             ok = False
             bad_props.append(k)
+            structural.append(k)
     for k in cfg['props']:
         if k not in cfg['optional'] and not props.get(k):
             ok = False
             bad_props.append(k)
-    return ('valid' if ok else 'invalid'), et, {'props': props, 'bad': sorted(set(bad_props))}
+            structural.append(k)
+    return ('valid' if ok else 'invalid'), et, {'props': props, 'bad': sorted(set(bad_props)), 'bad_values': bad_values,
+                                                'structural': sorted(set(structural))}
+
+
+def drop_repaired(case, et, exp):
+    """The event as the configured drop repair leaves it, when that alone makes it valid: every offending property is one whose
+    invalid objects may be dropped (and normalization is not configured for it, so that its outcome is not in question), no
+    structural fault, and nothing mandatory is lost. None otherwise."""
+    norm, drop = effective_repair(case, et)
+    cfg = {'type.a': SETUP['ra'], 'type.b': SETUP['rb']}.get(et)
+    if cfg is None or not exp['bad'] or exp.get('structural'):
+        return None
+    if not all(b in drop and b not in norm and b in exp.get('bad_values', {}) for b in exp['bad']):
+        return None
+    props = {}
+    for k, vs in exp['props'].items():
+        keep = [v for v in vs if v not in exp['bad_values'].get(k, [])]
+        if keep:
+            props[k] = keep
+        elif k not in cfg['optional']:
+            return None
+    return props
 
 
 def classify_all(case, rec):
@@ -666,8 +712,14 @@ class C17(Property):
                 if it[0] == 'event':
                     et, exp = by_exp[it[1]]
                     events.append({'type': et, 'source': it[2], 'props': sorted([k, v] for k, v in exp['props'].items())})
-        return {'calls': calls, 'closed': None, 'parse': None, 'events': events,
+        pred = {'calls': calls, 'closed': None, 'parse': None, 'events': events,
                 'sources': sorted(set(r['sources'])) if all_decided else 'undecided'}
+        if case.get('late_bad_source'):
+            # the refused close() leaves the mediator open; the second one writes the repaired source and ends the document
+            pred['late'] = 'refused'
+            if pred['sources'] != 'undecided':
+                pred['sources'] = sorted(set(pred['sources']) | {'/src/late/'})
+        return pred
 
     def fill_undecided(self, case, obs, pred):
         if pred == 'undecided' or case.get('kind') == 'lookup':
@@ -711,6 +763,13 @@ class C17(Property):
             return self.harness_oracle(case, obs)
         if obs['parse'] is not None:
             return 'a validating parser rejects the output of the mediator: %s' % obs['parse']
+        if case.get('late_bad_source'):
+            if obs.get('late') != 'refused':
+                return 'close() with an invalid source definition pending: %s' % obs.get('late')
+            if obs['closed'] is not None:
+                return 'close() after the source definition was repaired raised %s' % obs['closed']
+            if '/src/late/' not in (obs['sources'] or []):
+                return 'the source that was repaired after close() had refused it is missing from the output'
         for op, c in zip(case['ops'], obs['calls']):
             if c is not None and c.startswith('raised:') and not (op[0] == 'record' and not case['initial_source']):
                 return 'call %s raised %s' % (json.dumps(op, ensure_ascii=False, default=str)[:200], c[7:])
@@ -727,6 +786,13 @@ class C17(Property):
                     exp = dict(exp, bad=['source-uri'])
                 if status == 'valid' and c is None:
                     want_min.append({'type': et, 'source': cur, 'props': sorted([k, v] for k, v in exp['props'].items())})
+                if status == 'invalid' and cur in defined and not case.get('multi_yield'):
+                    fixed = drop_repaired(case, et, exp)
+                    if fixed is not None:
+                        if c is not None:
+                            return ('record %s gives an event that the configured drop repair (%s) makes valid, but process() raised %s' % (
+                                json.dumps(op[1], ensure_ascii=False, default=str)[:200], effective_repair(case, et)[1], c))
+                        want_min.append({'type': et, 'source': cur, 'props': sorted([k, v] for k, v in fixed.items())})
                 if status == 'invalid' and c is None and not ignoring and beyond_repair(case, et, exp):
                     return ('record %s gives an invalid event (%s), invalid events are not ignored and the configured repair (normalize %s, '
                             'drop %s) does not cover that, but process() did not raise' % (
